@@ -150,9 +150,18 @@ pub fn do_sync(w: &mut World, r: usize, urg: Urg, avoid: bool, sctl: Option<Arc<
     let sctl = server.ctl.clone();
     let mut boxed = server.boxed();
     let ctl = ctl.unwrap_or_else(Ctl::new);
-    let result = crate::util::block_on(with_replica(&mut w.reps[r], ctl, async |rep| {
-        rep.sync(&mut boxed, avoid).await.map_err(|e| format!("{e:#}"))
-    }));
+    // a panic inside the library is a finding about the library, not an engine failure
+    let result = match std::panic::catch_unwind(std::panic::AssertUnwindSafe(|| {
+        crate::util::block_on(with_replica(&mut w.reps[r], ctl, async |rep| {
+            rep.sync(&mut boxed, avoid).await.map_err(|e| format!("{e:#}"))
+        }))
+    })) {
+        Ok(r) => r,
+        Err(p) => {
+            let msg = p.downcast_ref::<String>().cloned().or_else(|| p.downcast_ref::<&str>().map(|s| s.to_string())).unwrap_or_else(|| "panic".into());
+            Err(format!("sync panicked: {msg}"))
+        }
+    };
     drop(boxed);
     w.obs[r] = Arc::new(obs_of(&mut w.reps[r]));
     w.chain = std::mem::take(&mut *st.lock().unwrap());
